@@ -4,6 +4,9 @@ all histories.
 -/
 import Frequenz.Lemmas.RingBufferGaps
 
+set_option linter.unusedSimpArgs false
+set_option linter.unusedVariables false
+
 namespace RingBuffer
 open Extracted.RingBuffer
 
